@@ -119,7 +119,7 @@ def run_batch(check, prop: str, tier: str, seed: int, runs: int, budget: float, 
                "--nw", str(half), "--runs", str(runs), "--budget", str(budget), "--first", str(first)]
         errf = open(os.path.join(VERIF, "scratch", "worker-%s-%d.err" % (prop, w)), "w")
         p = subprocess.Popen(cmd, stdout=subprocess.PIPE, stderr=errf, env=_env(hs), cwd=VERIF, text=True)
-        procs.append({"p": p, "w": w, "hs": hs, "last": time.monotonic(), "cur": None, "done": False, "errf": errf})
+        procs.append({"p": p, "w": w, "wid": wid, "hs": hs, "last": time.monotonic(), "cur": None, "done": False, "errf": errf})
 
         def reader(pp=p, ww=w):
             for line in pp.stdout:
@@ -198,7 +198,8 @@ def run_batch(check, prop: str, tier: str, seed: int, runs: int, budget: float, 
                 else:
                     agg["nt_shapes"].add(ev.get("shape") or "r%d" % r)
             for v in ev.get("viol", []):
-                agg["viol"].append({"r": r, "hashseed": int(ev["hashseed"]), "v": v, "scn": ev.get("scn")})
+                agg["viol"].append({"r": r, "hashseed": int(ev["hashseed"]), "v": v, "scn": ev.get("scn"),
+                                    "hist": {"wid": pr["wid"], "nw": half, "first": first, "seed": seed, "tier": tier}})
             if ev.get("scn") is not None and not ev.get("viol") and len(agg["samples"]) < 3:
                 agg["samples"].append(ev["scn"])
     for pr in procs:
@@ -242,6 +243,9 @@ def confirm_shrink_report(check, prop: str, rec: dict, known: list[dict], do_shr
         history_dependent = False
         if not fails(res):
             history_dependent = True
+            hp = history_replay(check, prop, rec, fails)
+            if hp is not None:
+                return "violation", hp
         best, st = scn, {}
         if do_shrink and not history_dependent:
             def still(c):
@@ -278,9 +282,82 @@ def confirm_shrink_report(check, prop: str, rec: dict, known: list[dict], do_shr
         ex.close()
 
 
+def run_history(prop: str, hashseed: int, scns: list[dict]) -> dict:
+    """Executes a sequence of scenarios in ONE fresh interpreter (state carried from one call to the next is the point);
+    returns the result of the last one."""
+    ex = Executor(prop, hashseed)
+    try:
+        res: dict = {}
+        for s in scns:
+            res = ex.run(s)
+            if res.get("hang") or (res.get("harness_error") and s is not scns[-1] and "executor died" in str(res.get("harness_error"))):
+                break
+        return res
+    finally:
+        ex.close()
+
+
+def history_replay(check, prop: str, rec: dict, fails) -> str | None:
+    """A violation that does not reproduce from its scenario alone in a fresh interpreter: rebuild the sequence of scenarios
+    the worker had executed before it (a pure function of seed, worker index and worker count), confirm that the sequence
+    reproduces the violation in a fresh interpreter, minimise it by dropping scenarios, and write it as the replay file."""
+    h = rec.get("hist")
+    if not h:
+        return None
+    runs = list(range(h["first"] + h["wid"], rec["r"] + 1, h["nw"]))
+    if not runs or runs[-1] != rec["r"] or len(runs) > 4000:
+        return None
+    scns = [regen(check, prop, h["seed"], r, h["tier"]) for r in runs[:-1]] + [rec["scn"]]
+    hs = rec["hashseed"]
+    if not fails(run_history(prop, hs, scns)):
+        return None
+    # minimise: shortest failing suffix first (doubling), then drop single predecessors
+    t0 = time.monotonic()
+    budget = float(os.environ.get("DSIM_SHRINK_S", "90"))
+    best = scns
+    k = 1
+    while k < len(scns) and time.monotonic() - t0 < budget:
+        cand = scns[-(k + 1):]
+        if fails(run_history(prop, hs, cand)):
+            best = cand
+            break
+        k *= 2
+    i = 0
+    while i < len(best) - 1 and time.monotonic() - t0 < budget:
+        cand = best[:i] + best[i + 1:]
+        if fails(run_history(prop, hs, cand)):
+            best = cand
+        else:
+            i += 1
+    oracle = rec["v"]["oracle"]
+    replay = {"property": prop, "oracle": oracle, "detail": rec["v"].get("detail"), "sig": rec["v"].get("sig"), "hashseed": hs,
+              "history_dependent": True, "history": best, "scenario": best[-1],
+              "shrink": {"history_from": len(scns), "history_to": len(best), "wall_s": round(time.monotonic() - t0, 1)},
+              "original_run": {"seed": h["seed"], "run": rec["r"], "worker": h["wid"], "workers": h["nw"]}}
+    path = os.path.join(VERIF, "replays", "%s-h-%s.json" % (prop, S.digest([best, oracle])))
+    os.makedirs(os.path.dirname(path), exist_ok=True)
+    S.save(path, replay)
+    if replay_file(check, prop, path, quiet=True) != 1:
+        return None
+    return path
+
+
 def replay_file(check, prop: str, path: str, quiet: bool = False) -> int:
     rp = S.load(path)
     scn = rp["scenario"]
+    if rp.get("history"):
+        res = run_history(prop, int(rp.get("hashseed", 1)), rp["history"])
+        hit = [v for v in res.get("viol", []) if v["oracle"] == rp["oracle"] and (rp.get("sig") is None or v.get("sig") == rp.get("sig"))]
+        if not quiet:
+            if res.get("harness_error"):
+                print("HARNESS ERROR during replay:\n" + res["harness_error"])
+                return 2
+            print("replayed a history of %d scenarios in one fresh interpreter" % len(rp["history"]))
+            for v in hit:
+                print("reproduced %s: %s" % (v["oracle"], v.get("detail")))
+            print("event-log digest:", res.get("digest"))
+            print(("VIOLATION property=%s replay=%s" % (prop, path)) if hit else "not reproduced (oracle %s holds on this tree)" % rp["oracle"])
+        return 1 if hit else 0
     xs = rp.get("xseeds")
     if xs:
         d = []
